@@ -7,6 +7,7 @@ import (
 	"go/token"
 	"go/types"
 	"math"
+	"os"
 
 	"gosym/smt"
 )
@@ -482,6 +483,11 @@ func equalsV(i *interpreter, t types.Type, x, y value) value {
 		return equalsV(i, x.t, x.v, ys.v)
 	case opaque:
 		panic(unsupported("comparison of opaque value " + x.what))
+	}
+	if os.Getenv("VERIF_STACK") != "" {
+		for f := i.curFr; f != nil; f = f.caller {
+			fmt.Fprintf(os.Stderr, "  stack: %s\n", f.pos())
+		}
 	}
 	panic(engineBug(fmt.Sprintf("comparing uncomparable type %s (%T)", t, x)))
 }
